@@ -323,6 +323,106 @@ def u3_u4(prog, ctx):
         ctx.fail("U4", "all sub-commands get the same delimiter/comment options", m.where, "differing actuals %s" % sorted(pairs), key="subcmd-args")
 
 
+LIB_READS = {"econf_readFile": (2, 3), "econf_readFileWithCallback": (2, 3), "econf_readDirs": (5, 6), "econf_readDirsWithCallback": (5, 6),
+             "econf_readDirsHistory": (6, 7), "econf_readDirsHistoryWithCallback": (6, 7), "econf_readConfig": (5, 6), "econf_readConfigWithCallback": (5, 6)}
+
+
+def u4b_every_read_with_the_options(prog, ctx, rule="U4"):
+    """every read the tool makes - also the re-read of the file the user has just edited - parses with the delimiter and comment SETS
+    given on the command line: the arguments of the library's read calls are main()'s option variables, handed down unchanged"""
+    m = prog.fn("main", util=True)
+    fam = {"delimiters": {("main", "delimiters")}, "comment": {("main", "comment")}}
+    changed = True
+    fns = {name: f for name, f in prog.util_functions.items()}
+    for _round in range(6):
+        if not changed:
+            break
+        changed = False
+        for name, f in fns.items():
+            fo = getattr(f, "original", f)
+            for c in fo.calls():
+                g = fns.get(c.j.get("callee"))
+                if g is None:
+                    continue
+                for ai, a in enumerate(c.call_args()):
+                    for k, setk in fam.items():
+                        if (name, render(a)) in setk and ai < len(g.params) and (g.name, g.params[ai]["name"]) not in setk:
+                            setk.add((g.name, g.params[ai]["name"]))
+                            changed = True
+    n = 0
+    for name, f in fns.items():
+        fo = getattr(f, "original", f)
+        for c in fo.calls(tuple(LIB_READS)):
+            di, ci = LIB_READS[c.j["callee"]]
+            a = c.call_args()
+            if len(a) <= ci:
+                continue
+            n += 1
+            bad = []
+            if (name, render(a[di])) not in fam["delimiters"]:
+                bad.append("delimiters `%s`" % render(a[di]))
+            if (name, render(a[ci])) not in fam["comment"]:
+                bad.append("comment characters `%s`" % render(a[ci]))
+            inst = "%s: %s() parses with the options of the command line" % (name, c.j["callee"])
+            # only a set that is made up on the spot (a local of this function) is known to be another one; options that travel in
+            # another form (a settings object) are not understood by this rule
+            local_made = [x for x in (a[di], a[ci]) if x.strip().k == "DeclRefExpr" and x.strip().j.get("dk") == "local"
+                          and (name, render(x)) not in fam["delimiters"] | fam["comment"]]
+            if bad and not local_made:
+                ctx.inconclusive(rule, inst, c.where, "read with %s: not recognisably the sets of the command line" % " and ".join(bad))
+                continue
+            if bad:
+                ctx.fail(rule, inst, c.where, "the file is read with %s, not with the sets given by --delimiters / --comment: a line that starts with another "
+                         "character of the comment set is taken for a key or for the continuation of the value above it" % " and ".join(bad),
+                         key="read-options:%s:%s" % (name, c.j["callee"]))
+            else:
+                ctx.ok(rule, inst, c.where, "%s, %s handed down from main()" % (render(a[di]), render(a[ci])))
+    ctx.counts["U4b library reads in the tool"] = n
+
+
+def u10_ext_lookup_is_literal(prog, ctx):
+    """U10: the tool asks econf_getExtValue() for (section, key) pairs with the section names econf_getGroups() returned; the extended
+    getter therefore looks the section up under exactly the name it is given.  A lookup that strips brackets first does not find a
+    section whose name itself is written in brackets (`[[units]]` is the section `[units]`)."""
+    if not prog.has_fn("econf_getExtValue"):
+        return
+    g = prog.fn("econf_getExtValue")
+
+    def strips(fn, pname, depth=0):
+        """does `fn` hand (a copy of) its parameter `pname` to stripbrackets() on the way to find_key?"""
+        if depth > 2:
+            return None
+        f0 = getattr(fn, "original", fn)
+        tainted = {pname}
+        for lhs, rhs, st in f0.assignments():
+            if rhs is not None and any(x.k == "DeclRefExpr" and x.j.get("name") in tainted for x in rhs.walk()):
+                tainted.add(lhs["name"] if isinstance(lhs, dict) else render(lhs))
+        for c in f0.calls("stripbrackets"):
+            if any(x.k == "DeclRefExpr" and x.j.get("name") in tainted for a in c.call_args() for x in a.walk()):
+                return c
+        for c in f0.calls():
+            cn = c.j.get("callee")
+            if cn in ("find_key", "stripbrackets") or cn not in prog.functions:
+                continue
+            for ai, a in enumerate(c.call_args()):
+                if any(x.k == "DeclRefExpr" and x.j.get("name") in tainted for x in a.walk()) and ai < len(prog.functions[cn].params):
+                    r = strips(prog.functions[cn], prog.functions[cn].params[ai]["name"], depth + 1)
+                    if r is not None:
+                        return r
+        return None
+    gp = [q["name"] for q in g.params if q["name"] == "group"]
+    if not gp:
+        ctx.inconclusive("U10", "the extended getter looks sections up literally", g.where, "no parameter `group`")
+        return
+    hit = strips(g, "group")
+    if hit is not None:
+        ctx.fail("U10", "the extended getter looks sections up literally", hit.where,
+                 "on the way from econf_getExtValue() to find_key() the section name goes through stripbrackets(): the tool, which asks with the names "
+                 "econf_getGroups() returned, gets `key not found` for a section whose name is itself in brackets and stops listing", key="ext-lookup-stripped")
+    else:
+        ctx.ok("U10", "the extended getter looks sections up literally", g.where, "the section name reaches find_key() as given")
+
+
 def u6_u8(prog, ctx):
     """U6 the --comment / --delimiters arguments reach the library whole (the option variable is the argument itself or what
     replace_str() made of it - not a character copied out of it).   U7 every place that decides "one file or a configuration to
@@ -426,6 +526,8 @@ def run(prog, ctx):
     u1(prog, ctx)
     u2(prog, ctx)
     u3_u4(prog, ctx)
+    u4b_every_read_with_the_options(prog, ctx)
+    u10_ext_lookup_is_literal(prog, ctx)
     u6_u8(prog, ctx)
     from rules import C14
     from sa.report import Ctx
